@@ -290,6 +290,49 @@ pub fn enc_calls(calls: &[Value]) -> Value {
     json!({"p":"ok","v":{"k":"enc","b":bytes(&b)},"pos":b.len()})
 }
 
+/// An iterator with a prescribed (well-behaved) size hint: low <= remaining <= up at every point.
+#[derive(Clone)]
+pub struct Hinted { items: Vec<u64>, pos: usize, slack_low: usize, slack_up: Option<usize> }
+impl Hinted {
+    /// `low`/`up` are the hint of the fresh iterator over `n` elements; the slack is kept as elements are consumed.
+    pub fn new(items: Vec<u64>, n: usize, low: usize, up: Option<usize>) -> Self {
+        Hinted { items, pos: 0, slack_low: n.saturating_sub(low), slack_up: up.map(|u| u.saturating_sub(n)) }
+    }
+}
+impl Iterator for Hinted {
+    type Item = u64;
+    fn next(&mut self) -> Option<u64> { let x = self.items.get(self.pos).copied(); if x.is_some() { self.pos += 1 } x }
+    fn size_hint(&self) -> (usize, Option<usize>) {
+        let rem = self.items.len() - self.pos;
+        (rem.saturating_sub(self.slack_low), self.slack_up.map(|s| rem + s))
+    }
+}
+#[derive(Clone)]
+pub struct HintedPairs(Hinted);
+impl Iterator for HintedPairs {
+    type Item = (u64, u64);
+    fn next(&mut self) -> Option<(u64, u64)> { let k = self.0.next()?; let v = self.0.next()?; Some((k, v)) }
+    fn size_hint(&self) -> (usize, Option<usize>) {
+        let rem = (self.0.items.len() - self.0.pos) / 2;
+        (rem.saturating_sub(self.0.slack_low), self.0.slack_up.map(|s| rem + s))
+    }
+}
+/// ArrayIter / MapIter over an iterator with the given size hint.
+#[cfg(feature = "alloc")]
+pub fn encit(input: &Value) -> Value {
+    let xs: Vec<u64> = input["xs"].as_array().unwrap().iter().map(get_u64).collect();
+    let low = input["low"].as_u64().unwrap() as usize;
+    let up = input["up"].as_i64().and_then(|u| if u < 0 { None } else { Some(u as usize) });
+    let r = if input["kind"] == "array" {
+        let n = xs.len();
+        minicbor::to_vec(minicbor::encode::ArrayIter::new(Hinted::new(xs, n, low, up)))
+    } else {
+        let n = xs.len() / 2;
+        minicbor::to_vec(minicbor::encode::MapIter::new(HintedPairs(Hinted::new(xs, n, low, up))))
+    };
+    match r { Ok(b) => json!({"p":"ok","v":{"k":"enc","b":bytes(&b)},"pos":b.len()}), Err(_) => json!({"p":"err","cls":"enc","pos":0}) }
+}
+
 /// Dispatch: op name + input record -> observation.
 pub fn run_op(fam: &str, name: &str, input: &Value) -> Value {
     guarded(|| {
@@ -301,6 +344,8 @@ pub fn run_op(fam: &str, name: &str, input: &Value) -> Value {
             "enc" => enc_calls(std::slice::from_ref(input)),
             #[cfg(feature = "alloc")]
             "encseq" => enc_calls(input["calls"].as_array().unwrap()),
+            #[cfg(feature = "alloc")]
+            "encit" => encit(input),
             #[cfg(feature = "alloc")]
             "encf" => encf(name, &get_bytes(&input["bits"])),
             "int_from" => int_from(name, input["neg"].as_bool().unwrap(), get_u128(&input["mag"])),
